@@ -26,6 +26,7 @@ func init() { runners["c20"] = runC20 }
 type c20Out struct {
 	b    strings.Builder
 	fail string
+	low  string // a failure reported only when the line has no other one (the known quarter finding must not mask anything)
 }
 
 func (o *c20Out) num(vs ...int64) {
@@ -45,9 +46,17 @@ func (o *c20Out) failf(format string, a ...any) {
 		o.fail = "FAIL:" + fmt.Sprintf(format, a...)
 	}
 }
+func (o *c20Out) lowf(format string, a ...any) {
+	if o.low == "" {
+		o.low = "FAIL:" + fmt.Sprintf(format, a...)
+	}
+}
 func (o *c20Out) oracle(checked int) string {
 	if o.fail != "" {
 		return o.fail
+	}
+	if o.low != "" {
+		return o.low
 	}
 	if checked == 0 {
 		return "-"
@@ -621,6 +630,27 @@ func c20FloorDiv(a, b int64) int64 {
 	return q
 }
 
+// c20AddMonths is the reference for month arithmetic: t moved by `months` calendar months, same day of month and
+// time of day; a day the target month does not have is carried into the next month (time.Date's rule).
+// kept = false iff the target month has that day and r does not show it with t's time of day.
+func c20AddMonths(t time.Time, months int64, zone *time.Location, r time.Time) (want time.Time, kept bool) {
+	y, m, d := t.Date()
+	hh, mi, s := t.Clock()
+	idx := int64(y)*12 + int64(m) - 1 + months
+	y2, m2 := c20FloorDiv(idx, 12), idx-12*c20FloorDiv(idx, 12)+1
+	want = time.Date(int(y2), time.Month(m2), d, hh, mi, s, t.Nanosecond(), zone)
+	first := time.Date(int(y2), time.Month(m2), 1, 0, 0, 0, 0, zone)
+	dim := first.AddDate(0, 1, 0).Add(-time.Hour).Day()
+	if d <= dim {
+		ry, rm, rd := r.Date()
+		rh, rmi, rs := r.Clock()
+		if int64(ry) != y2 || int64(rm) != m2 || rd != d || rh != hh || rmi != mi || rs != s {
+			return want, false
+		}
+	}
+	return want, true
+}
+
 func c20Ivl(h *H, scale, off, ns, u int64, vs []int64) {
 	c20Emit(h, c20Line("ivl", append([]int64{scale, off, ns, u}, vs...)...), func(o *c20Out) int {
 		zone := c20Zone(off)
@@ -659,21 +689,22 @@ func c20Ivl(h *H, scale, off, ns, u int64, vs []int64) {
 				} else if proto.IntervalScale(scale) == proto.IntervalYear {
 					months = 12 * v
 				}
-				y, m, d := t.Date()
-				hh, mi, s := t.Clock()
-				idx := int64(y)*12 + int64(m) - 1 + months
-				y2, m2 := c20FloorDiv(idx, 12), idx-12*c20FloorDiv(idx, 12)+1
-				// time.Date carries a day the target month does not have into the next month
-				want = time.Date(int(y2), time.Month(m2), d, hh, mi, s, int(ns), zone)
-				first := time.Date(int(y2), time.Month(m2), 1, 0, 0, 0, 0, zone)
-				dim := first.AddDate(0, 1, 0).Add(-time.Hour).Day()
-				if d <= dim {
-					ry, rm, rd := r.Date()
-					rh, rmi, rs := r.Clock()
-					if int64(ry) != y2 || int64(rm) != m2 || rd != d || rh != hh || rmi != mi || rs != s {
-						o.failf("%s + %d x scale %d = %s: day of month or time of day not kept (want %d-%02d-%02d)",
-							t.Format(time.RFC3339Nano), v, scale, r.Format(time.RFC3339Nano), y2, m2, d)
+				var kept bool
+				want, kept = c20AddMonths(t, months, zone, r)
+				if proto.IntervalScale(scale) == proto.IntervalQuarter && (!kept || !r.Equal(want)) {
+					// which whole number of months per quarter does the implementation add, if any?
+					for k := int64(1); k <= 12; k++ {
+						if wk, ok := c20AddMonths(t, k*v, zone, r); k != 3 && ok && r.Equal(wk) {
+							o.lowf("IntervalQuarter adds %d months per quarter (expected 3): %s + %d quarters = %s, want %s",
+								k, t.Format(time.RFC3339Nano), v, r.Format(time.RFC3339Nano), want.Format(time.RFC3339Nano))
+							want, kept = wk, true
+							break
+						}
 					}
+				}
+				if !kept {
+					o.failf("%s + %d x %s = %s: day of month or time of day not kept (want %s)",
+						t.Format(time.RFC3339Nano), v, proto.IntervalScale(scale), r.Format(time.RFC3339Nano), want.Format(time.RFC3339Nano))
 				}
 			}
 			if !r.Equal(want) {
